@@ -76,6 +76,10 @@ partial def getFn? (j : Json) : Option (Except Err (Fn F)) := do
     let f ← getFn? (← field? j "f")
     let c ← fFloat? j "c"
     pure (f.bind (fun t => t.div c))
+  | "setscale" =>
+    let f ← getFn? (← field? j "f")
+    let c ← fFloat? j "c"
+    pure (f.bind (fun t => t.setScale c))
   | "sum" =>
     let f ← getFn? (← field? j "f")
     let g ← getFn? (← field? j "g")
